@@ -57,7 +57,11 @@ def same_data(a, b):
 def fresh_hash(mb, rec, cr):
     try:
         q = quantizer.Quantizer(mb, copy.deepcopy(rec))
-    except Exception as e:  # noqa: BLE001  (an exported recipe that does not load back is itself a difference)
+    except ValueError:
+        # a rule accepted under the policy in force when it was added may be refused by the policy in force now (load_config_policy is
+        # process-global by design): no fresh object can hold this recipe, nothing to compare
+        return None
+    except Exception as e:  # noqa: BLE001  (an exported recipe that cannot even be parsed back is itself a difference)
         return "RAISE-ON-LOAD " + type(e).__name__
     try:
         return "OK " + hashlib.sha256(bytes(q.quantize(copy.deepcopy(cr)).quantized_model)).hexdigest()
@@ -306,6 +310,9 @@ def _history_case(ctx, drv, rng, i, n_sub):
                     want = fresh_hash(mb, rec_now, cr_in)
                 finally:
                     os.environ.pop(ENVVAR, None)
+                if want is None:
+                    ctx.tag("fresh_object_refuses_recipe_under_current_policy")
+                    continue
                 ctx.tag("quantize_compared_with_fresh")
                 if out != want:
                     return fail(f"quantize() output depends on the history of the Quantizer object ({out[:20]} vs fresh {want[:20]})", "history-dependent")
